@@ -15,6 +15,7 @@ import (
 	"strconv"
 	"strings"
 	"time"
+	"unsafe"
 
 	"github.com/robustirc/robustirc/internal/config"
 	"github.com/robustirc/robustirc/internal/robust"
@@ -33,7 +34,30 @@ var verifInventory = map[string][]string{
 	"Id":      {"Id", "Reply"},
 }
 
-// VerifCheckInventory returns an error when a dumped type has gained or lost a field.
+// vExtraFields lists, per dumped type, the fields the repository has gained since the explicit printer
+// was written.  They are dumped generically (vExtra) when they are of a simple kind.
+var vExtraFields = map[string][]string{}
+
+func vSimpleKind(t reflect.Type) bool {
+	switch t.Kind() {
+	case reflect.Bool, reflect.Int, reflect.Int8, reflect.Int16, reflect.Int32, reflect.Int64, reflect.Uint, reflect.Uint8, reflect.Uint16, reflect.Uint32, reflect.Uint64,
+		reflect.Float32, reflect.Float64, reflect.String:
+		return true
+	case reflect.Slice, reflect.Array:
+		return vSimpleKind(t.Elem())
+	case reflect.Map:
+		return vSimpleKind(t.Key()) && vSimpleKind(t.Elem())
+	case reflect.Struct:
+		return t == reflect.TypeOf(time.Time{})
+	}
+	return false
+}
+
+// VerifCheckInventory compares the fields of every dumped type with the list the explicit printer
+// knows.  A field that was removed or reordered, or a new field of a kind that cannot be rendered
+// generically, is an error (HARNESS-OUT-OF-DATE: never silently ignored, never a violation); new
+// fields of simple kinds (numbers, strings, times, slices/maps of those) and new lock fields are
+// accepted and rendered generically.
 func VerifCheckInventory() error {
 	types := []reflect.Type{
 		reflect.TypeOf(IRCServer{}), reflect.TypeOf(Session{}), reflect.TypeOf(channel{}),
@@ -43,15 +67,56 @@ func VerifCheckInventory() error {
 	}
 	for _, t := range types {
 		want := verifInventory[t.Name()]
-		var got []string
+		known := map[string]bool{}
+		for _, w := range want {
+			known[w] = true
+		}
+		var got, extra []string
 		for i := 0; i < t.NumField(); i++ {
-			got = append(got, t.Field(i).Name)
+			f := t.Field(i)
+			if known[f.Name] {
+				got = append(got, f.Name)
+				continue
+			}
+			ft := f.Type
+			if ft.Kind() == reflect.Ptr {
+				ft = ft.Elem()
+			}
+			if strings.Contains(ft.String(), "Mutex") {
+				continue // a new lock carries no state
+			}
+			if !vSimpleKind(f.Type) {
+				return fmt.Errorf("HARNESS-OUT-OF-DATE: type %s has a new field %s of type %s which the canonical dump cannot render", t.Name(), f.Name, f.Type)
+			}
+			extra = append(extra, f.Name)
 		}
 		if strings.Join(got, ",") != strings.Join(want, ",") {
 			return fmt.Errorf("HARNESS-OUT-OF-DATE: type %s has fields %v, the canonical dump knows %v", t.Name(), got, want)
 		}
+		vExtraFields[t.Name()] = extra
 	}
 	return nil
+}
+
+// vExtra renders the fields listed in vExtraFields of the struct that p points to.
+func vExtra(p interface{}) string {
+	v := reflect.ValueOf(p).Elem()
+	names := vExtraFields[v.Type().Name()]
+	if len(names) == 0 {
+		return ""
+	}
+	var b strings.Builder
+	for _, n := range names {
+		f := v.FieldByName(n)
+		f = reflect.NewAt(f.Type(), unsafe.Pointer(f.UnsafeAddr())).Elem()
+		val := f.Interface()
+		if t, ok := val.(time.Time); ok {
+			fmt.Fprintf(&b, " +%s=%d/%v", n, t.UnixNano(), t.IsZero())
+			continue
+		}
+		fmt.Fprintf(&b, " +%s=%v", n, val) // fmt prints maps with sorted keys
+	}
+	return b.String()
 }
 
 // VerifDumpOpts selects the flavour of the dump.
@@ -152,6 +217,7 @@ func (d *vdumper) session(s *Session) {
 		// the address of the most recent message is a per-message stamp like LastActivity
 		fmt.Fprintf(&d.b, " addr=%q", s.RemoteAddr)
 	}
+	d.b.WriteString(vExtra(s))
 	d.b.WriteString("\n")
 }
 
@@ -180,7 +246,9 @@ func (d *vdumper) channel(k lcChan, c *channel) {
 		}
 		fmt.Fprintf(&d.b, "%q~%q", b.pattern, re)
 	}
-	d.b.WriteString("]\n")
+	d.b.WriteString("]")
+	d.b.WriteString(vExtra(c))
+	d.b.WriteString("\n")
 }
 
 func (d *vdumper) config(c *config.Network) {
@@ -212,6 +280,7 @@ func VerifDump(i *IRCServer, o VerifDumpOpts) string {
 	if !o.RelTime && !o.NoStamps {
 		fmt.Fprintf(&d.b, " lastProcessed=%s", vid(i.lastProcessed))
 	}
+	d.b.WriteString(vExtra(i))
 	d.b.WriteString("\n")
 	d.config(&i.Config)
 
